@@ -408,6 +408,72 @@ func runC09(w *World, r *Report) {
 		}
 	}
 
+	// ---------- R9 lookup tables inside the mapping functions are keyed injectively
+	r.Rule("C09-R9", "mapping consults injectively keyed tables only", "inside mapDBAndCollectionName (both copies, closures and same-package callees) every map / util.Map / sync.Map key is a parameter, a Range-callback parameter, or a composite whose adjacent string components are separated by a character that cannot occur in a Milvus name", 2)
+	for _, spec := range []struct {
+		pkg, recv string
+	}{{pkgWriter, "ChannelWriter"}, {pkgReader, "TargetClient"}} {
+		fn := w.Func(spec.pkg, spec.recv, "mapDBAndCollectionName")
+		cons := fmt.Sprintf("(*%s).mapDBAndCollectionName | table keys", spec.recv)
+		if fn == nil {
+			r.Undecided("C09-R9", cons, 0, "anchor not found")
+			continue
+		}
+		fns := []*ssa.Function{fn}
+		seenF := map[*ssa.Function]bool{fn: true}
+		for i := 0; i < len(fns) && i < 40; i++ {
+			for _, a := range fns[i].AnonFuncs {
+				if !seenF[a] {
+					seenF[a] = true
+					fns = append(fns, a)
+				}
+			}
+			eachInstr(fns[i], func(in ssa.Instruction) {
+				if c, ok := in.(ssa.CallInstruction); ok {
+					if sc := c.Common().StaticCallee(); sc != nil && sc.Pkg != nil && sc.Pkg.Pkg.Path() == spec.pkg && !seenF[sc] && sc.Blocks != nil {
+						seenF[sc] = true
+						fns = append(fns, sc)
+					}
+				}
+			})
+		}
+		nKeys, bad, badPos := 0, "", token.NoPos
+		for _, f := range fns {
+			ambiguous := map[ssa.Value]compKey{}
+			for _, k := range allComposites(f) {
+				if len(k.Ambig) > 0 {
+					ambiguous[k.Value()] = k
+				}
+			}
+			for _, ku := range mapKeyUses(f) {
+				nKeys++
+				for _, x := range backSlice(ku.Key, SliceOpts{MaxDepth: 8, ThroughArg: func(c *ssa.CallCommon) []ssa.Value {
+					var out []ssa.Value
+					for _, a := range callArgs(c) {
+						if isStringType(a.Type()) {
+							out = append(out, a)
+						}
+					}
+					return out
+				}}) {
+					if k, isAmb := ambiguous[x]; isAmb {
+						bad, badPos = fmt.Sprintf("%s keyed by %s (separator %q between two names)", shortFn2(f), k.Format, k.Seps[k.Ambig[0]]), ku.At.Pos()
+					}
+					if c, isCall := x.(*ssa.Call); isCall {
+						if cs := callSym(c.Common()); cs.pkg == pkgUtil && (cs.name == "GetCollectionInfoKeys" || cs.name == "GetPartitionInfoKeys") {
+							bad, badPos = fmt.Sprintf("%s keyed by util.%s (ambiguous, see C15-R5)", shortFn2(f), cs.name), ku.At.Pos()
+						}
+					}
+				}
+			}
+		}
+		if bad == "" {
+			r.OK("C09-R9", cons, fn.Pos(), fmt.Sprintf("%d function(s) in the mapping family, %d keyed table access(es), none ambiguous", len(fns), nKeys))
+		} else {
+			r.Fail("C09-R9", cons, badPos, "the mapping result is taken from a table whose key does not identify the (database, collection) pair: "+bad+"; two source objects whose names join to the same string share a slot, so one of them is operated on under the other's downstream names")
+		}
+	}
+
 	// ---------- R5 DML arms
 	supported := supportedMsgTypes(w)
 	hrm := w.Func(pkgWriter, "ChannelWriter", "HandleReplicateMessage")
